@@ -121,8 +121,8 @@ func c18Names(args []string) error {
 
 type lookupVec struct {
 	Name string `json:"name"`
-	Fam  string `json:"fam"`  // "M" | "uncn" | "unfn" | "uncf" | "unff" | "npt"
-	A    int    `json:"a"`    // designation tokens (see Threads.tla)
+	Fam  string `json:"fam"` // "M" | "uncn" | "unfn" | "uncf" | "unff" | "npt"
+	A    int    `json:"a"`   // designation tokens (see Threads.tla)
 	B    int    `json:"b"`
 	Std  string `json:"std"`  // "coarse" | "fine" | "std" | "none"
 	ER   int    `json:"er"`   // expected radius in the fixed unit of the family (0 = not determined)
@@ -136,9 +136,9 @@ type lookupObs struct {
 	V     lookupVec `json:"v"`
 	Found bool      `json:"found"`
 	Units string    `json:"units"`
-	R     int64     `json:"r"`  // radius / unit
+	R     int64     `json:"r"` // radius / unit
 	RRes  int64     `json:"rres"`
-	P     int64     `json:"p"`  // mm: pitch*1000; inch: 2/pitch
+	P     int64     `json:"p"` // mm: pitch*1000; inch: 2/pitch
 	PRes  int64     `json:"pres"`
 	TZero bool      `json:"tzero"` // taper == 0
 	T     int64     `json:"t"`     // round(1/tan(taper)) if tapered
